@@ -244,5 +244,24 @@ PROPS["C10"] = _paging(
     dict(cases=3000, nops=(25, 50, 90), time_cap=800, watchdog=1500, min_cases=400, w_random=3, w_shape=1, exhaustive_shapes=6, deep_n=1200),
 )
 
+PROPS["C17"] = {
+    "engine": "purelaws",
+    "rule": "exhaustive enumeration of the bounded C17 grammar (3 schemes x {no port, port} x host sequences of length 0..H over "
+            "{com,a,www} not ending in two www x path sequences of length 0..P over {p:x, p:s:http, p:s:https, p:xs:http, p:h:www, "
+            "p:h:, q:h:www}), each LRU through the contract-wrapped real lru_variations and Traph.expand_prefix (bytes and str): "
+            "must not raise, prefix first, no entry twice, only scheme stem / trailing www host stem may differ, and every member's "
+            "own expansion must be the same set; plus random grammar LRUs with binary path stems, and end-to-end: fresh indexes fed "
+            "the same site through each variation first must end with the same prefixes under one id. distinct_nontrivial = number "
+            "of distinct variation classes with >= 2 members observed.",
+    "nontrivial": None,
+    "deciding_counters": ["C17_lrus", "C17_closure_checks", "C17_end_to_end_sites", "contract_evals:helpers.lru_variations",
+                          "contract_evals:traph.lru_variations(bound name)"],
+    "anchors": ["lru_variations", "https_variation", "Traph.expand_prefix"],
+    "quick": dict(max_hosts=3, max_paths=1, random=4000, e2e=12, shards=8, watchdog=300, min_cases=500),
+    "thorough": dict(max_hosts=3, max_paths=2, random=200000, e2e=150, shards=16, watchdog=1500, min_cases=5000),
+    "level": "exploration",
+    "assumptions": ["the enumerated grammar is bounded (H=3 hosts, P<=2 path stems from 7 values); longer LRUs are sampled only"],
+}
+
 # properties deliberately not claimed (none so far): id -> reason
 NOT_APPLICABLE = {}
